@@ -290,7 +290,7 @@ pub fn model_accepts(c: &Creation) -> bool {
 }
 
 const NAME_POOL: &[&str] = &["m", "req_total", "a:b", ":x", "_y", "é", "mé", "9m", "m9", "", "m-1", "m 1", "M", "ｍ", "m\u{301}", "٣x", "x٣"];
-const LABEL_POOL: &[&str] = &["l", "le", "a", "a_1", "_a", "1a", "", "l:1", "é", "lé", "l-1", "L", "le ", "٣", "a٣", "__n"];
+const LABEL_POOL: &[&str] = &["l", "le", "a", "a_1", "_a", "1a", "", "l:1", "é", "lé", "l-1", "L", "le ", "٣", "a٣", "__n", ":", "a:", ":a", "a.b", "a\u{0}"];
 const HELP_POOL: &[&str] = &["help", "", " ", "h\nh"];
 
 fn gen_creation(r: &mut Rng) -> Creation {
@@ -328,7 +328,7 @@ fn gen_names_plan(seed: u64) -> NamesPlan {
     let ncommon = r.below(3) as usize;
     let mut common = vec![];
     for _ in 0..ncommon {
-        let k = if r.chance(65) { r.pick(&["zone", "dc", "z_1"]).to_string() } else { r.pick(&["l", "a", "9 bad", "é", "", "le", "w"]).to_string() };
+        let k = if r.chance(65) { r.pick(&["zone", "dc", "z_1"]).to_string() } else { r.pick(&["l", "a", "9 bad", "é", "", "le", "w", "dc:zone", ":", "a:b", "_:", "z1:"]).to_string() };
         if !common.iter().any(|(x, _): &(String, String)| *x == k) {
             common.push((k, "cv".to_string()));
         }
